@@ -230,6 +230,17 @@ func (s *ctState) doStore(k, ver, size int, ttl int64, fault string, reads strin
 		}
 	}
 	undo := func() {}
+	if fault == "ensuremid" {
+		// the cleanup task's size check runs WHILE this store is reading its body (the key's shard is locked): whatever it
+		// recomputes or skips, the counters afterwards equal what is stored (the limit is far away: nothing is evicted)
+		prev := rd.hook
+		rd.hook = func() {
+			s.c.VerifEnsureSize()
+			if prev != nil {
+				prev()
+			}
+		}
+	}
 	switch {
 	case strings.HasPrefix(fault, "src:"):
 		rd.failAt, _ = strconv.Atoi(fault[4:])
@@ -573,6 +584,9 @@ func genCacheTrace(c runCfg, o *Out, emit func(...string)) {
 				ver++
 				size := sizes[r.Intn(len(sizes))]
 				fault := "none"
+				if limit == 100000 && r.Chance(25) {
+					fault = "ensuremid"
+				}
 				if r.Chance(18) {
 					switch r.Intn(4) {
 					case 0, 1:
@@ -657,7 +671,8 @@ func genCacheTrace(c runCfg, o *Out, emit func(...string)) {
 			case x < 95:
 				emit("ct", "ensure")
 			case x < 97:
-				emit("ct", "setlimit", itoa([]int{100, 250, 400, 1000}[r.Intn(4)]))
+				limit = []int{100, 250, 400, 1000}[r.Intn(4)] // (the mid-store size check is generated only far below the limit)
+				emit("ct", "setlimit", itoa(limit))
 				if r.Chance(40) {
 					// ... followed by a change of the OTHER setting the effective limit is computed from
 					emit("ct", "setbudget", itoa([]int{10, 50, 75, 90}[r.Intn(4)]))
